@@ -6,7 +6,7 @@ import random
 import vlib
 
 LEVEL = "model_checking"
-MAPS = [(1, 0, "int"), (1.0, 0.0, "float"), (0.25, -3.0, "x2^-2-3"), (1024.0, 7.0, "x2^10+7")]      # powers of two: exact ties stay exact
+MAPS = [(1, 0, "int"), (1.0, 0.0, "float"), (0.25, -3.0, "x2^-2-3"), (1024.0, 7.0, "x2^10+7"), (1.0, 4294967296.0, "+2^32")]      # powers of two: exact ties stay exact; +2^32: coordinates huge relative to the tolerance (differences stay exact)
 
 
 def _pu():
